@@ -73,4 +73,22 @@ META = {
         "note": "Trusted: Lean kernel; regexp and filepath of the Go standard library (two rule shapes modelled by hand, Rel as atom).",
         "technique": "Lean 4 proof quantified over permutations (List.Perm) of the mapping table; differential run with permutation-set acceptance",
     },
+    "C04": {
+        "text": "Proof over a byte-exact encoder model (tied by byte-for-byte correspondence on generated records): whatever bytes the message, the logger name, the keys and the string-like values contain, what the JSON escaper puts between quotes is a well-formed JSON string body (no unescaped quote, no raw control byte, only legal escapes - proved for all byte strings), and the whole record is one line whose only control byte is the final line feed, given control-free standard-library atoms. Decoding fidelity is checked by the encoding/json oracle on every generated record.",
+        "design_ref": "DESIGN.md §7 C04",
+        "note": "Trusted: Lean kernel; strconv.IsPrint table; atoms from strconv/time/fmt; encoding/json as oracle. Not kernel-checked: full JSON grammar validity of the nested value structure (oracle + correspondence).",
+        "technique": "Lean 4 proofs on escapers and by mutual induction over the value/attribute encoders; byte-exact differential run; JSON decoder oracle",
+    },
+    "C05": {
+        "text": "Proof over the same encoder model in logfmt mode: Go-syntax quoting of any byte string contains no control byte and no DEL (so CR/LF/ESC can neither split the line nor reach the terminal), and a whole record is exactly one line given control-free atoms and legal keys (mutual induction over values, groups at any depth and position). The parse-back of every pair is checked by the tokenizer + strconv.Unquote oracle on every generated record, and the model is tied byte for byte.",
+        "design_ref": "DESIGN.md §7 C05",
+        "note": "Trusted: Lean kernel; strconv.IsPrint table (guarded: printable implies >= 0x20 and != 0x7f); atoms; strconv.Unquote as oracle. Production mode only (error dump off).",
+        "technique": "Lean 4 proofs (escaper cleanliness, one-line theorem by mutual induction); byte-exact differential run; logfmt tokenizer oracle",
+    },
+    "C06": {
+        "text": "Partial proof over the encoder model in colored mode (tied byte for byte on the fidelity domain): layout and colour hygiene theorems in Props/C06; the colour helpers of hedzr/is and the markup translator are modelled from their source / bypassed on the domain (no '<' or '&'), not verified. Oracle: SGR state tracker + stripped-layout parser on every generated record.",
+        "design_ref": "DESIGN.md §7 C06",
+        "note": "Trusted: Lean kernel; hedzr/is term/color helpers (ESC[<n>m, ESC[0m); the translator is the identity on the domain by the repaired fast path; widths are byte counts.",
+        "technique": "Lean 4 proofs on the colored encoder model; byte-exact differential run; SGR tracker oracle",
+    },
 }
